@@ -261,10 +261,10 @@ func genSoak(r *Rand, epochs int, spe uint64) (SoakInput, []string) {
 	if r.Chance(1, 4) {
 		startEpoch = uint64(r.Range(40, 2000))
 	}
-	outageEpoch := map[uint64]bool{}   // every attestation of the epoch fails (node outage)
-	noDutyEpoch := map[uint64]bool{}   // no duty in the epoch
-	silentEpoch := map[uint64]bool{}   // no head event during the epoch
-	noSchedEpoch := map[uint64]bool{}  // the epoch's preparation did not happen (duties fetch failed)
+	outageEpoch := map[uint64]bool{}  // every attestation of the epoch fails (node outage)
+	noDutyEpoch := map[uint64]bool{}  // no duty in the epoch
+	silentEpoch := map[uint64]bool{}  // no head event during the epoch
+	noSchedEpoch := map[uint64]bool{} // the epoch's preparation did not happen (duties fetch failed)
 	for k := 0; k < epochs; k++ {
 		e := startEpoch + uint64(k)
 		switch {
